@@ -67,7 +67,7 @@ ASSUMPTIONS = [
     "tensor (case['prime']) use the same quantizer object: q.scale must "
     "describe the latest call",
 ]
-BUDGET_S = {"quick": 60, "thorough": 800}
+BUDGET_S = {"quick": 40, "thorough": 800}
 REQUIRED_LABELS = {
     t: ["quantized_bits", "quantized_linear", "alpha:auto", "alpha:auto_po2",
         "rank1", "rank2", "rank3", "rank4", "axis_int", "axis_list", "eps",
@@ -419,7 +419,20 @@ def run(ctx):
     for sc, sig, d in oracle(ctx, case):
       ctx.fail(sc, sig, case, d)
   n = (16000 if ctx.quick else 240000) // ctx.n + 1
-  core.hyp_run(ctx, G.c05_case(), lambda c: oracle(ctx, c), n, name="c05")
+  # chunks: the soft budget is checked between Hypothesis runs, so a slow
+  # machine ends the search early (recorded as inconclusive tail) instead of
+  # generating examples that are no longer evaluated
+  chunk = 250 if ctx.quick else 2000
+  done, i = 0, 0
+  while done < n:
+    if ctx.time_left() <= 0:
+      ctx.labels["inconclusive_time"] += 1
+      break
+    m = min(chunk, n - done)
+    core.hyp_run(ctx, G.c05_case(), lambda c: oracle(ctx, c), m, name="c05_%d" % i)
+    done += m
+    i += 1
+  ctx.info["hyp_cases_requested"] = done
 
 
 def replay(ctx, case):
